@@ -202,8 +202,24 @@ impl E {
             E::Arg(n) => match args.get(*n as usize) {
                 Some(Opnd::Ex(e)) => E::Par(Box::new(e.clone())),
                 Some(o) => return Err(format!("macro parameter @{} used inside an expression but the argument is {:?}", n, o)),
-                None => return Err(format!("macro parameter @{} not supplied", n)),
+                // not supplied: stays unexpanded; it is an error only if the line is assembled
+                None => E::Arg(*n),
             },
+            E::Sym(s) if s.contains('@') => {
+                // reference to a label whose name is built from a numeric parameter (`v@0`)
+                let mut out = s.clone();
+                for n in (0..10usize).rev() {
+                    let pat = format!("@{}", n);
+                    if out.contains(&pat) {
+                        match args.get(n) {
+                            Some(Opnd::Ex(E::Num(v))) => out = out.replace(&pat, &v.to_string()),
+                            None => {}
+                            other => return Err(format!("label parameter @{} needs a plain number, got {:?}", n, other)),
+                        }
+                    }
+                }
+                E::Sym(out)
+            }
             E::Un(o, a) => E::Un(*o, Box::new(a.subst(args)?)),
             E::Fn(o, a) => E::Fn(*o, Box::new(a.subst(args)?)),
             E::Par(a) => E::Par(Box::new(a.subst(args)?)),
@@ -228,11 +244,11 @@ pub enum Opnd {
 impl Opnd {
     pub fn subst(&self, args: &[Opnd]) -> Result<Opnd, String> {
         Ok(match self {
-            Opnd::Arg(n) => args.get(*n as usize).cloned().ok_or_else(|| format!("macro parameter @{} not supplied", n))?,
+            Opnd::Arg(n) => args.get(*n as usize).cloned().unwrap_or(Opnd::Arg(*n)),
             Opnd::PtrQ(p, e) => Opnd::PtrQ(*p, e.subst(args)?),
             Opnd::Ex(e) => match e {
                 // `@n` alone as an expression operand may also receive a register or pointer form
-                E::Arg(n) => args.get(*n as usize).cloned().ok_or_else(|| format!("macro parameter @{} not supplied", n))?,
+                E::Arg(n) => args.get(*n as usize).cloned().unwrap_or(Opnd::Ex(E::Arg(*n))),
                 _ => Opnd::Ex(e.subst(args)?),
             },
             o => o.clone(),
